@@ -28,8 +28,22 @@ VK_MAIN()
                 r[i].len = vin.i[i];
                 r[i].n0 = (char)vin.b[vb++]; r[i].n1 = (char)vin.b[vb++];
                 VK_ASSUME(r[i].n0 != 0);
+#ifndef VK_EQNAMES
                 for (int j = 0; j < i; j++) VK_ASSUME(r[i].n0 != r[j].n0 || r[i].n1 != r[j].n1);   /* names pairwise distinct */
+#endif
         }
+#ifdef VK_EQNAMES
+        /* C14-O3: records may share name and length; the canonical order must then still be decided without looking at the
+         * residue letters (seq is an invalid pointer here): spelling (case, T/U) cannot reach the tree or the DP through it */
+        {
+                struct msa_seq a, b; char na[3], nb2[3];
+                mk(&a, na, r[0], 0); mk(&b, nb2, r[1], 1);
+                struct msa_seq *pa = &a, *pb = &b;
+                int ab = sort_by_len_name(&pa, &pb);
+                VK_ASSERT(ab == 1 || ab == -1, "C14: comparator decides from length and name only");
+        }
+        VK_END();
+#endif
         /* comparator laws on the first three records */
         {
                 struct msa_seq a, b, c; char na[3], nb_[3], nc[3];
